@@ -193,8 +193,9 @@ def run(chk):
     accessor(chk, w)
     pairing(chk, w)
     offsets(chk, w)
-    from . import c01_cache
+    from . import c01_cache, c01_absent
     c01_cache.run(chk, w)
+    c01_absent.run(chk, w)
 
 
 def dispatch(chk, w, enum, floor):
